@@ -9,6 +9,7 @@ def contract(lv, opt):
     ensures
         err_post(*vstd::prelude::old(d), *final(d), res),
         (*final(d)).fobs() == (*vstd::prelude::old(d)).fobs(),
+        (*final(d)).config() == (*vstd::prelude::old(d)).config(),
         seg_post(*vstd::prelude::old(d), *final(d), old, old_range, new, new_range, LVL, OPT, fin::<D>(), res.is_ok()),
 '''.replace('LVL', lv).replace('OPT', opt)
 GEN = '''<Old: Index<usize> + ?Sized, New: Index<usize> + ?Sized>'''
@@ -98,6 +99,19 @@ proof fn lemma_tbl_store GEN(tp: Map<(usize, usize), u32>, TBL, i: int, j: int, 
         if k != (i as usize, j as usize) { assert(tp.contains_key(k)); assert(cell_done(k.0 as int, k.1 as int, i, j + 1)); }
     }
 }
+/// one step of the walk at cell (i, j) = (new_idx, old_idx): the neighbour the code moves to keeps the remaining lcs
+/// (tie-break of the code: not equal and cell(i, j + 1) >= cell(i + 1, j) => delete, else insert)
+proof fn lemma_walk GEN(TBL, i: int, j: int) WH
+  requires 0 <= i < ne - ns, 0 <= j < oe - os, tbl_lcs(t, old, os, oe, new, ns, ne)
+  ensures
+      eqv(old, os + j, new, ns + i) ==> lcs_len(old, os + j, oe, new, ns + i, ne) == 1 + lcs_len(old, os + j + 1, oe, new, ns + i + 1, ne),
+      !eqv(old, os + j, new, ns + i) && tbl_val(t, i, j + 1) >= tbl_val(t, i + 1, j) ==> lcs_len(old, os + j, oe, new, ns + i, ne) == lcs_len(old, os + j + 1, oe, new, ns + i, ne),
+      !eqv(old, os + j, new, ns + i) && tbl_val(t, i, j + 1) < tbl_val(t, i + 1, j) ==> lcs_len(old, os + j, oe, new, ns + i, ne) == lcs_len(old, os + j, oe, new, ns + i + 1, ne),
+{
+    assert(cell_ok(t, old, os, oe, new, ns, ne, i, j + 1));
+    assert(cell_ok(t, old, os, oe, new, ns, ne, i + 1, j));
+    assert(os + (j + 1) == os + j + 1 && ns + (i + 1) == ns + i + 1);
+}
 '''.replace('GEN', GEN).replace('WH', WH).replace('TBL', TBL))
 mt = o.find('fn make_table<Old, New>(')
 o.before('{', '''
@@ -138,6 +152,7 @@ o.after('for j in (0..old_len).rev()', '''
         0 <= VERUS_ghost_iter.index@ <= old_len,
         tbl_upto(table@, ARGS, i as int, old_len - VERUS_ghost_iter.index@),
 '''.replace('ARGS', ARGS), start=mt, stmt=False)
+o.before('let val = if new[new_range.start + i] == old[old_range.start + j] {', 'broadcast use {axiom_pure_index, axiom_pure_eq};', start=mt)
 o.before('if val > 0 {', '''
 let ghost tp = table@;
 proof {
@@ -156,6 +171,7 @@ proof { assert(tbl_lcs(table@, ARGS)); }
 dd = o.find('pub fn diff_deadline<Old, New, D>(')
 o.before('{', contract('alg_lvl(deadline)', 'deadline is None'), start=dd)
 o.after('{', '''
+hide(seg_eqs); hide(lcs_len);   // C03 bookkeeping goes through lemmas only (keeps the queries small)
 broadcast use {axiom_pure_index, axiom_pure_eq};
 let ghost rel = rel_of(old, new); let ghost lvl = alg_lvl(deadline);
 let ghost o0 = old_range.start as int; let ghost n0 = new_range.start as int;
@@ -163,10 +179,13 @@ let ghost oe0 = old_range.end as int; let ghost ne0 = new_range.end as int;
 let ghost d0 = *d; let ghost t0 = d.trace(); let ghost rs0 = d.rely_st(); let ghost r1 = d.rely_rel();
 let ghost mut s: Seq<Ev> = Seq::empty();
 let ghost mut oc: int = o0; let ghost mut nc: int = n0;
+let ghost opt = deadline is None;      // C03: no deadline => the script is optimal
+let ghost mut eqs: int = 0;            // number of items reported equal so far
 proof { lemma_seg_empty(rel, lvl, o0, n0); lemma_run_empty(r1, rs0); assert(t0 + s =~= t0); assert(alg_inv(*d, d0, t0, s, rel, lvl, rs0, o0, n0, oc, nc)); }
+proof { assert(eqs == seg_eqs(rel, lvl, s, o0, n0, oc, nc)); }
 ''', start=dd, stmt=False, ind='    ')
 
-def call(o, start, pat, ev, adv, nth=1, extra=''):
+def call(o, start, pat, ev, adv, nth=1, extra='', opt=''):
     i = o.find(pat, start, nth)
     ind = o.indent_of(i)
     pre = ghost('''
@@ -176,33 +195,36 @@ proof { let e = %s; %s if d0.relies() { pre_call(rel, r1, lvl, s, e, o0, n0, oc,
     j = o.stmt_end(i + len(pre))
     post = ghost('''
 proof { let e = %s; post_call(rel, r1, lvl, s, e, o0, n0, oc, nc, rs0); assert((t0 + s).push(e) =~= t0 + s.push(e)); s = s.push(e); %s
-    assert(alg_inv(*d, d0, t0, s, rel, lvl, rs0, o0, n0, oc, nc)); }
-''' % (ev, adv), ind)
+    assert(alg_inv(*d, d0, t0, s, rel, lvl, rs0, o0, n0, oc, nc)); eqs = eqs + ev_eqs(e); assert(eqs == seg_eqs(rel, lvl, s, o0, n0, oc, nc)); %s }
+''' % (ev, adv, opt), ind)
     o.lines[j+1:j+1] = post
     return j + 1 + len(post)
 
-def finish(o, start, nth=1, pat='d.finish()?;'):
+def finish(o, start, nth=1, pat='d.finish()?;', why=''):
     i = o.find(pat, start, nth)
     ind = o.indent_of(i)
     o.lines[i:i] = ghost('''
+proof { %s assert(opt ==> eqs == lcs_len(old, o0, oe0, new, n0, ne0)); }
 proof { assert(oc == oe0 && nc == ne0); assert(seg(old, new, lvl, s, o0, n0, oe0, ne0)); if d0.relies() { lemma_seg_any(rel, r1, lvl, s, o0, n0, oe0, ne0, rs0); } lemma_run_fin::<D>(r1, rs0, s); }
-''', ind)
-    return i + 2
+''' % why, ind)
+    return i + 3
 
 p = call(o, dd, 'd.delete(old_range.start, old_range.len(), new_range.start)?;',
      'Ev::Delete(old_range.start, (old_range.end - old_range.start) as usize, new_range.start)', 'oc = oc + (old_range.end - old_range.start);')
-p = finish(o, p)
+p = finish(o, p, why='lemma_lcs_empty(old, o0, oe0, new, n0, ne0);')
 p = call(o, p, 'd.insert(old_range.start, new_range.start, new_range.len())?;',
      'Ev::Insert(old_range.start, new_range.start, (new_range.end - new_range.start) as usize)', 'nc = nc + (new_range.end - new_range.start);')
-p = finish(o, p)
+p = finish(o, p, why='lemma_lcs_empty(old, o0, oe0, new, n0, ne0);')
 p = call(o, p, 'd.equal(old_range.start, new_range.start, old_range.len())?;',
      'Ev::Equal(old_range.start, new_range.start, (old_range.end - old_range.start) as usize)', 'oc = oc + (old_range.end - old_range.start); nc = nc + (old_range.end - old_range.start);')
-p = finish(o, p)
+p = finish(o, p, why='lemma_lcs_prefix(old, o0, oe0, new, n0, ne0, oe0 - o0); lemma_lcs_empty(old, oe0, oe0, new, ne0, ne0);')
 p = call(o, p, 'd.equal(old_range.start, new_range.start, common_prefix_len)?;',
      'Ev::Equal(old_range.start, new_range.start, common_prefix_len)', 'oc = oc + common_prefix_len; nc = nc + common_prefix_len;')
+# the inner box (prefix and suffix stripped) that make_table has tabulated
+IB = 'old, o0 + common_prefix_len, oe0 - common_suffix_len, new, n0 + common_prefix_len, ne0 - common_suffix_len'
 INV = '''
     invariant
-        alg_inv(*d, d0, t0, s, rel, lvl, rs0, o0, n0, oc, nc), (*d).fobs() == d0.fobs(),
+        alg_inv(*d, d0, t0, s, rel, lvl, rs0, o0, n0, oc, nc), (*d).fobs() == d0.fobs(), (*d).config() == d0.config(),
         box_pre(old, old_range, new, new_range), rely_pre(d0, old, old_range, new, new_range, lvl),
         rel == rel_of(old, new), lvl == alg_lvl(deadline), r1 == d0.rely_rel(), o0 == old_range.start, n0 == new_range.start,
         d0 == *vstd::prelude::old(d), rs0 == d0.rely_st(), t0 == d0.trace(), oe0 == old_range.end, ne0 == new_range.end,
@@ -210,18 +232,28 @@ INV = '''
         new_len == new_range.end - new_range.start - common_prefix_len - common_suffix_len,
         old_idx <= old_len, new_idx <= new_len,
         oc == old_range.start + common_prefix_len + old_idx, nc == new_range.start + common_prefix_len + new_idx,
+        // C03: the table is the LCS table of the inner box; what has been reported equal plus what the rest can still yield is constant
+        eqs == seg_eqs(rel, lvl, s, o0, n0, oc, nc),
+        tbl_lcs(table@, IB),
+        eqs + lcs_len(old, oc, oe0 - common_suffix_len, new, nc, ne0 - common_suffix_len) == common_prefix_len + lcs_len(IB),
     decreases (new_len - new_idx) + (old_len - old_idx),
-'''
+'''.replace('IB', IB)
 w = o.after('while new_idx < new_len && old_idx < old_len', INV, start=p, stmt=False)
-o.after('{', 'broadcast use {axiom_pure_index, axiom_pure_eq};', start=w, stmt=False, ind='            ')
+o.after('{', '''
+broadcast use {axiom_pure_index, axiom_pure_eq};
+proof { lemma_walk(table@, IB, new_idx as int, old_idx as int); }
+'''.replace('IB', IB), start=w, stmt=False, ind='            ')
 p = call(o, w, 'd.equal(old_orig_idx, new_orig_idx, 1)?;', 'Ev::Equal(old_orig_idx, new_orig_idx, 1)', 'oc = oc + 1; nc = nc + 1;',
          extra='assert(eqv(old, old_orig_idx as int, new, new_orig_idx as int)); assert(relk(rel, old_orig_idx as int, new_orig_idx as int, 0));')
 p = call(o, p, 'd.delete(old_orig_idx, 1, new_orig_idx)?;', 'Ev::Delete(old_orig_idx, 1, new_orig_idx)', 'oc = oc + 1;')
 p = call(o, p, 'd.insert(old_orig_idx, new_orig_idx, 1)?;', 'Ev::Insert(old_orig_idx, new_orig_idx, 1)', 'nc = nc + 1;')
+o.before('if old_idx < old_len {', '''
+proof { if opt { lemma_lcs_empty(old, oc, oe0 - common_suffix_len, new, nc, ne0 - common_suffix_len); } assert(opt ==> eqs == common_prefix_len + lcs_len(IB)); }   // the walk has used up one side (no deadline: there was a table)
+'''.replace('IB', IB), start=p)
 p = call(o, p, 'd.delete(', 'Ev::Delete((old_range.start + common_prefix_len + old_idx) as usize, (old_len - old_idx) as usize, (new_range.start + common_prefix_len + new_idx) as usize)', 'oc = oc + (old_len - old_idx);')
 p = call(o, p, 'd.insert(', 'Ev::Insert((old_range.start + common_prefix_len + old_idx) as usize, (new_range.start + common_prefix_len + new_idx) as usize, (new_len - new_idx) as usize)', 'nc = nc + (new_len - new_idx);')
 p = call(o, p, 'd.equal(', 'Ev::Equal((old_range.start + old_len + common_prefix_len) as usize, (new_range.start + new_len + common_prefix_len) as usize, common_suffix_len)', 'oc = oc + common_suffix_len; nc = nc + common_suffix_len;')
-p = finish(o, p, pat='d.finish()')
+p = finish(o, p, pat='d.finish()', why='if opt { lemma_lcs_strip(old, o0, oe0, new, n0, ne0, common_prefix_len as int, common_suffix_len as int); }')
 df = o.find('pub fn diff<Old, New, D>(')
 o.before('{', contract('alg_lvl(None)', 'true'), start=df)
 o.save()
